@@ -52,6 +52,7 @@ RULE = (
     "variant of every catalogue entry at every applicable row of 10 fixed seed CIDs (5 format kinds, plain and with "
     "comment/empty rows). A case is non-trivial when it has >= 2 rows of one kind (a defect lands on a row other than "
     "the first of its kind) or >= 2 rewrites; distinct by hash of rows + rewrite program."
+    "Check rows with an empty rule and a valid rule in the cell behind; DistinctCount rules that cannot be evaluated for ten different reasons."
 )
 ASSUMPTIONS = [
     "neutral, never judged: a check between field rows naming only earlier fields; overlapping range items; 'csv' as "
